@@ -2,7 +2,7 @@
    selector of depth k picks the k-th layer counted from the innermost one. *)
 From Coq Require Import List Ascii Bool Arith Lia.
 Import ListNotations.
-Require Import Gen.
+From Dyn Require Import Gen.
 
 Definition AT : ascii := c 64.
 Definition head_not_at (x : str) : Prop := match x with h :: _ => (h =c AT) = false | [] => True end.
